@@ -2,6 +2,8 @@
 
 package restful
 
+import "strconv"
+
 // Ranking of Accept ranges (C05): greater q first, header order on ties.
 
 func sortedDesc(l []mime) bool {
@@ -20,4 +22,197 @@ func insertedAt(l, r []mime, e mime, p int) bool {
 func stablePos(l []mime, e mime, p int) bool {
 	return forall(0, p, func(k int) bool { return l[k].quality >= e.quality }) &&
 		(p == len(l) || l[p].quality < e.quality)
+}
+
+// --- what an Accept header says (from the statement of C05 and the HTTP grammar) ---------------
+//
+// The header is a comma separated list of ranges. A range is `media (";" parameter)*`; optional
+// whitespace around "," ";" and "=" is not part of anything. The weight of a range is the value of
+// its parameter named q (1 when it has none). A range whose weight is not a number ranks nowhere.
+
+// rangeCount(h): number of ranges of header h.
+func rangeCount(h string) int { return model_splitCount(h, ",") }
+
+// tRange(e): range text e without the optional whitespace around it.
+func tRange(e string) string { return model_strings_Trim(e, " ") }
+
+// tMedia(e): the media type of range text e — what stands before the first ";".
+func tMedia(e string) string {
+	return model_strings_Trim(model_splitPart(tRange(e), ";", 0), " ")
+}
+
+// isQParam(p): parameter text p is `q = value`.
+func isQParam(p string) bool {
+	return model_splitCount(p, "=") == 2 && model_strings_Trim(model_splitPart(p, "=", 0), " ") == "q"
+}
+
+// qValText(p): the value text of a `q = value` parameter.
+func qValText(p string) string { return model_strings_Trim(model_splitPart(p, "=", 1), " ") }
+
+// qIdx(r, i): index of the first q parameter of range text r at or after part i; the number of parts if there is none.
+func qIdx(r string, i int) int {
+	if i >= model_splitCount(r, ";") {
+		return model_splitCount(r, ";")
+	}
+	if isQParam(model_splitPart(r, ";", i)) {
+		return i
+	}
+	return qIdx(r, i+1)
+}
+
+func pfOK(s string) bool {
+	_, err := strconv.ParseFloat(s, 64)
+	return err == nil
+}
+
+func pfVal(s string) float64 {
+	f, _ := strconv.ParseFloat(s, 64)
+	return f
+}
+
+// tHasQ(e): range text e carries a q parameter.
+func tHasQ(e string) bool { return qIdx(tRange(e), 1) < model_splitCount(tRange(e), ";") }
+
+// tParsed(e): range text e has a usable weight (no q parameter, or one whose value is a number).
+func tParsed(e string) bool {
+	return !tHasQ(e) || pfOK(qValText(model_splitPart(tRange(e), ";", qIdx(tRange(e), 1))))
+}
+
+// tQ(e): the weight of range text e.
+func tQ(e string) float64 {
+	if !tHasQ(e) {
+		return 1.0
+	}
+	return pfVal(qValText(model_splitPart(tRange(e), ";", qIdx(tRange(e), 1))))
+}
+
+// the j-th range of header h
+func rMedia(h string, j int) string { return tMedia(model_splitPart(h, ",", j)) }
+func rParsed(h string, j int) bool  { return tParsed(model_splitPart(h, ",", j)) }
+func rQ(h string, j int) float64    { return tQ(model_splitPart(h, ",", j)) }
+
+// --- the ranked list as a witness ---------------------------------------------------------------
+//
+// rkSrc(h, n, k) names the range that stands at position k once the first n ranges are ranked. It
+// is a *witness* (it follows the insertion the code performs); what C05 states about the ranking —
+// every usable range is in it exactly once, greater weight first, header order on ties — is proved
+// about it by the lemmas C05.rank-*.
+
+// rkLen(h, n): number of usable ranges among the first n.
+func rkLen(h string, n int) int {
+	if n <= 0 {
+		return 0
+	}
+	if rParsed(h, n-1) {
+		return rkLen(h, n-1) + 1
+	}
+	return rkLen(h, n-1)
+}
+
+// rkLow(h, n, x, k): first position at or after k whose weight is below x; rkLen(h, n) if there is none.
+func rkLow(h string, n int, x float64, k int) int {
+	if k >= rkLen(h, n) {
+		return rkLen(h, n)
+	}
+	if rQ(h, rkSrc(h, n, k)) < x {
+		return k
+	}
+	return rkLow(h, n, x, k+1)
+}
+
+// rkIns(h, n): where range n is placed among the ranking of the first n ranges.
+func rkIns(h string, n int) int { return rkLow(h, n, rQ(h, n), 0) }
+
+func rkSrc(h string, n int, k int) int {
+	if n <= 0 {
+		return -1
+	}
+	if !rParsed(h, n-1) {
+		return rkSrc(h, n-1, k)
+	}
+	if k < rkIns(h, n-1) {
+		return rkSrc(h, n-1, k)
+	}
+	if k == rkIns(h, n-1) {
+		return n - 1
+	}
+	return rkSrc(h, n-1, k-1)
+}
+
+// rkPos(h, n, j): the position of range j (< n, usable) in the ranking of the first n ranges.
+func rkPos(h string, n int, j int) int {
+	if n <= 0 {
+		return -1
+	}
+	if !rParsed(h, n-1) {
+		return rkPos(h, n-1, j)
+	}
+	if j == n-1 {
+		return rkIns(h, n-1)
+	}
+	if rkPos(h, n-1, j) >= rkIns(h, n-1) {
+		return rkPos(h, n-1, j) + 1
+	}
+	return rkPos(h, n-1, j)
+}
+
+// beats(h, a, b): range a ranks before range b — greater weight, or equal weight and earlier in the header.
+func beats(h string, a, b int) bool {
+	return rQ(h, a) > rQ(h, b) || (rQ(h, a) == rQ(h, b) && a < b)
+}
+
+// --- what the entity writer must choose (C05) ------------------------------------------------
+
+// inList(P, m): the route produces media type m.
+func inList(P []string, m string) bool {
+	return exists(0, len(P), func(k int) bool { return P[k] == m })
+}
+
+// mediaUseful(P, m): a range naming m can be answered from the Produces list P — m is one of
+// its entries, or m is */* (which stands for the first entry).
+func mediaUseful(P []string, m string) bool {
+	return inList(P, m) || (m == "*/*" && len(P) > 0)
+}
+
+// rangeUseful(h, P, j): the j-th range of header h has a usable weight and can be answered from P.
+func rangeUseful(h string, P []string, j int) bool {
+	return rParsed(h, j) && mediaUseful(P, rMedia(h, j))
+}
+
+// rangeBest(h, P, j): among the useful ranges of h the header ranks j highest (greater q first, header order on ties).
+func rangeBest(h string, P []string, j int) bool {
+	return 0 <= j && j < rangeCount(h) && rangeUseful(h, P, j) &&
+		forall(0, rangeCount(h), func(i int) bool { return !rangeUseful(h, P, i) || !beats(h, i, j) })
+}
+
+// chosenMedia(P, m): the media type answered for a useful range naming m.
+func chosenMedia(P []string, m string) string {
+	if inList(P, m) {
+		return m
+	}
+	return P[0]
+}
+
+// allRegistered(reg, P): every produced media type has a writer registered under exactly that name.
+func allRegistered(reg *entityReaderWriters, P []string) bool {
+	return forall(0, len(P), func(k int) bool { return regHas(reg, P[k]) })
+}
+
+// mimeLow(l, x, k): the first position at or after k whose quality is below x; len(l) if there is none —
+// where a stable insertion by descending quality puts an entry of quality x.
+func mimeLow(l []mime, x float64, k int) int {
+	if k >= len(l) {
+		return len(l)
+	}
+	if l[k].quality < x {
+		return k
+	}
+	return mimeLow(l, x, k+1)
+}
+
+// rankedAs(l, h, n): l is the ranking of the first n ranges of header h (position k holds range rkSrc(h, n, k)).
+func rankedAs(l []mime, h string, n int) bool {
+	return len(l) == rkLen(h, n) && forall(0, len(l), func(i int) bool {
+		return l[i].media == rMedia(h, rkSrc(h, n, i)) && l[i].quality == rQ(h, rkSrc(h, n, i))
+	})
 }
